@@ -1,5 +1,6 @@
 import Driver.Loop
 import PytypeModel.Plan.Runner
+import PytypeModel.Plan.Graph
 import PytypeModel.Plan.Ninja
 open PytypeModel.Plan PytypeModel.Ninja
 
@@ -14,6 +15,9 @@ open PytypeModel.Plan PytypeModel.Ninja
      step  : `<id>:<first 0/1>:<c|i>:<deps>:<imports>`; deps `-`|`out,out`; imports `-`|`key=out,..`
      out   : `D` | `<id>.<0|1>`
 `yield <req> <kinds> <groups>` → `ok <item> ..`, item = `<id>:<c|i|g>:<s|1|2>:<dep ids>`   (yield_sorted_modules)
+`graph <kinds> <nodes>` → `ok <topo 0/1> <groups>` (deps_from_import_graph; groups in the `plan` syntax)
+   nodes  : `-` | `n;n;..`  n = `f,f,..|j,j,..`  f = `m<id>` (source) | `s<k>` (type stub), files in file-name order;
+            j = position of a dep node in the list (dependencies first)
 `esc <cps>`  → `<cps> <wellEscaped 0/1>`      (cps = `-` | comma separated code points)
 `path <cps>` → `ok <cps> <rest cps>` | `err`  (ninja path reader)
 `val <cps>`  → `ok <cps> <rest cps>` | `err`  (ninja variable binding: blanks after `=` skipped, then the value reader)
@@ -90,6 +94,33 @@ def doYield (req kinds groups : String) : String :=
   | none => "bad-op"
   | some items => " ".intercalate ("ok" :: items.map showItem)
 
+def parseFile (kinds : List Char) (s : String) : Option GFile :=
+  match s.toList with
+  | 'm' :: r => ((String.ofList r).toNat?.bind (mkMod kinds)).map GFile.src
+  | 's' :: r => (String.ofList r).toNat?.map GFile.stub
+  | _ => none
+
+def parseNode (kinds : List Char) (s : String) : Option GNode :=
+  match s.splitOn "|" with
+  | [a, b] => do
+    let fs ← if a == "" then some [] else (a.splitOn ",").mapM (parseFile kinds)
+    let ds ← commaNats b
+    pure ⟨fs, ds⟩
+  | _ => none
+
+def showGroup (g : List Mod × List Mod) : String :=
+  ",".intercalate (g.1.map (toString ·.id)) ++ "|" ++ ",".intercalate (g.2.map (toString ·.id))
+
+def doGraph (kinds nodes : String) : String :=
+  let r := do
+    let kinds := if kinds == "-" then [] else kinds.toList
+    if nodes == "-" then some [] else (nodes.splitOn ";").mapM (parseNode kinds)
+  match r with
+  | none => "bad-op"
+  | some ns =>
+    let gs := depsFromGraph ns
+    s!"ok {if topo ns then 1 else 0} {if gs.isEmpty then "-" else ";".intercalate (gs.map showGroup)}"
+
 def showEval (r : Except PytypeModel.Ninja.Err (List Char × List Char)) : String :=
   match r with
   | .ok (a, b) => s!"ok {showChars a} {showChars b}"
@@ -99,6 +130,7 @@ def stepC19 (u : Unit) (line : String) : Unit × Option String :=
   match line.splitOn " " with
   | ["plan", req, kinds, groups] => (u, some (doPlan req kinds groups))
   | ["yield", req, kinds, groups] => (u, some (doYield req kinds groups))
+  | ["graph", kinds, nodes] => (u, some (doGraph kinds nodes))
   | ["esc", s] =>
     match commaNats s with
     | some l => let e := escape (toChars l)
